@@ -340,8 +340,9 @@ def run_conc(sc):
             if f is not None:
                 loc = f.f_locals; msg = loc.get("message")
                 if isinstance(msg, dict): info["n"] = msg.get("n")
-                if buf0 is not None and loc.get("dest", None) is buf0 and not any(x is msg for x in buf_tail()):
-                    info["stale"] = True
+                if buf0 is not None and loc.get("dest", None) is buf0:
+                    info["inbuf"] = True                     # somewhere between fetching the buffer and returning from it
+                    if not any(x is msg for x in buf_tail()): info["stale"] = True    # ... and not stored yet
                 if f is frame:
                     text = linecache.getline(OUTFILE, frame.f_lineno).strip()
                     info["isfor"] = text.startswith("for ") and "_destinations" in text
@@ -418,7 +419,8 @@ def run_conc(sc):
                 if stale and n in final_buf and not addrec["exc"]:
                     bad({"kind": "handover-race", "effect": "inflight-lost", "how": "stale-buffer"},
                         "dest %d never received n=%d: logging thread held the buffering destination while add_destinations ran to completion; message ended in the detached buffer" % (i, n))
-                elif held and n in final_buf and len(before) >= LIMIT and not addrec["exc"]:
+                elif (n in final_buf and len(before) >= LIMIT and not addrec["exc"]
+                      and any(p.get("inbuf") and p.get("n") == n and p["t_park"] < a_end and p.get("t_resume", 0) > a_start for p in sparks)):
                     bad({"kind": "handover-race", "effect": "full-buffer-shift"},
                         "dest %d never received n=%d: appended to the full buffer (index 0 popped) under the re-delivery iterator, which then stopped one short" % (i, n))
                 elif empty and n not in final_buf and not addrec["exc"]:
@@ -481,8 +483,9 @@ def gen_conc(tier, seed):
         ns, na = measure(cfg)
         per = max(1, (na - 8) // LIMIT)
         bs = [0, 6, 8 + 2 * per, na // 2, na - 3 * per - 1, na - 2 * per, na - per - 1, na]
+        if tier == "quick": bs = [6, 8 + 2 * per, na // 2, na - 2 * per, na - per - 1, na]
         for _ in range(0 if tier == "quick" else 60): bs.append(rnd.randint(1, na))
-        as_ = [ns - 7, ns - 6] if tier == "quick" else list(range(max(0, ns - 10), ns + 1))
+        as_ = [ns - 7, ns - 6, ns - 5] if tier == "quick" else list(range(max(0, ns - 10), ns + 1))
         for b in bs:
             for a in as_:
                 if a < 0 or b < 0: continue
